@@ -137,6 +137,7 @@ PROPS = {
             part('plain', FLOW, 900, 12000, monitors=[M.mon_c01], props=['C01'], sub='plain', variants=3, scheds=ALLSCHED, snap='live'),
             part('mixed', FLOW, 150, 2000, monitors=[M.mon_c01], props=['C01'], sub='mixed', variants=2, scheds=QUIESCENT, snap='live'),
             part('loop', FLOW, 60, 600, monitors=[M.mon_c01], props=['C01'], sub='loop', variants=2, scheds=QUIESCENT, snap='live'),
+            part('error', ERROR, 300, 6000, monitors=[M.mon_c01], props=['C01'], chunk=60),
         ],
     },
     'C02': {
@@ -148,6 +149,7 @@ PROPS = {
             part('twins', ACTIONS, 300, 6000, monitors=[M.mon_c02], props=['C02'], sub='twins'),
             part('plain', FLOW, 300, 6000, monitors=[M.mon_c02], props=['C02'], sub='plain', variants=2, scheds=ALLSCHED, snap='live'),
             part('loop', FLOW, 40, 400, monitors=[M.mon_c02], props=['C02'], sub='loop', variants=2, scheds=QUIESCENT, snap='live'),
+            part('error', ERROR, 500, 8000, monitors=[M.mon_c02], props=['C02'], chunk=60, second_error=True),
         ],
     },
     'C03': {
@@ -159,6 +161,7 @@ PROPS = {
             part('plain', FLOW, 500, 8000, monitors=[M.mon_c03], props=['C03'], sub='plain', variants=2, scheds=ALLSCHED),
             part('mixed', FLOW, 100, 1500, monitors=[M.mon_c03], props=['C03'], sub='mixed', variants=2, scheds=QUIESCENT),
             part('loop', FLOW, 60, 600, monitors=[M.mon_c03], props=['C03'], sub='loop', variants=2, scheds=QUIESCENT),
+            part('error', ERROR, 300, 6000, monitors=[M.mon_c03], props=['C03'], chunk=60, second_error=True),
         ],
     },
     'C08': {
@@ -169,6 +172,7 @@ PROPS = {
             part('matrix', ACTIONS, 700, 12000, monitors=[M.mon_c08], props=['C08'], sub='matrix'),
             part('duel', ACTIONS, 300, 6000, monitors=[M.mon_c08], props=['C08'], sub='duel'),
             part('loop', FLOW, 40, 400, monitors=[M.mon_c08], props=['C08'], sub='loop', variants=2, scheds=QUIESCENT, snap='live'),
+            part('error', ERROR, 300, 6000, monitors=[M.mon_c08], props=['C08'], chunk=60, second_error=True),
         ],
     },
     'C11': {
